@@ -314,13 +314,19 @@ def run_proofs(name, module="LikelyProofs", timeout=1500, threads=8):
     # tlapm reads the community modules the specification extends as source files
     subprocess.run(["unzip", "-o", "-q", "-j", TLA_CP.split(":")[1], "SequencesExt.tla", "Folds.tla", "Functions.tla", "FiniteSetsExt.tla"],
                    cwd=d, stdout=subprocess.DEVNULL, stderr=subprocess.DEVNULL)
-    def tlapm(mod):
-        p = subprocess.run(["timeout", str(timeout), "tlapm", "--threads", str(threads), "--cleanfp", mod + ".tla"], cwd=d,
+    def tlapm(mod, extra=("--cleanfp",)):
+        p = subprocess.run(["timeout", str(timeout), "tlapm", "--threads", str(threads)] + list(extra) + [mod + ".tla"], cwd=d,
                            stdout=subprocess.PIPE, stderr=subprocess.STDOUT, text=True)
         return p.returncode, p.stdout
     rc, out = tlapm(module)
-    open(os.path.join(d, "tlapm.log"), "w").write(out)
     m = re.search(r"All (\d+) obligations? proved", out)
+    if rc not in (0, 124) and not m:
+        # the back-end provers have wall-clock time limits: on a loaded machine an obligation can time out.
+        # Retry the unproved ones (proved ones are kept by fingerprint) with the limits stretched.
+        log("[proof] %s: retrying unproved obligations with stretched prover time limits" % module)
+        rc, out = tlapm(module, extra=("--stretch", "6"))
+        m = re.search(r"All (\d+) obligations? proved", out)
+    open(os.path.join(d, "tlapm.log"), "w").write(out)
     if rc == 124:
         raise ToolError("tlapm timed out on %s" % module)
     if rc != 0 or not m:
